@@ -1,7 +1,222 @@
 /-
-  C04 — property theorems (see DESIGN.md §5 C04).
+  C04 — the relationship-field parser accepts the whole grammar: every field built from
+  the grammar (`Spec/Dependency.lean`), with any legal spacing and any admissible clause
+  order, parses to exactly the structure it denotes; malformed fields are rejected with an
+  error.  Property theorems only; lemmas live in GoDebian/Lemmas/DepGrammar*.lean.
 -/
 import GoDebian.Model.Dependency
+import GoDebian.Spec.Dependency
+import GoDebian.Lemmas.ArchIs            -- `DecidableEq (Except ε α)` for the examples
+import GoDebian.Lemmas.DepGrammarTop
+import GoDebian.Lemmas.DepGrammarReject
 
 namespace GoDebian.Props.C04
+open GoDebian GoDebian.Dep GoDebian.Spec.Dependency
+
+/-! ### acceptance -/
+
+/-- MAIN: every relationship field built from the grammar, with any legal spacing (blanks,
+    tabs, CR, LF around every token; at least one white-space byte before `[` and `<`;
+    `(` may abut) and any clause order (version and architecture clauses in either order,
+    interleaved arbitrarily with the profile groups), parses to exactly the structure it
+    denotes. -/
+theorem C04_parse_render (d : SDep) (cs : Spec.Deb822.Choices) (h : wfDep d = true) :
+    Dep.parse (Spec.Dependency.render d cs) = .ok (denote d) :=
+  Lemmas.DepGrammarTop.parse_render d cs h
+
+/-- A well-formed three-relation field and a choice stream exercising: leading blank, a
+    `:arch` qualifier, a negated two-entry architecture list folded over a line, a profile
+    group with tab / double-blank / CRLF-tab spacing, the version clause abutting `>` and
+    placed *between* the two profile groups and *after* the architecture list, `|` and `,`
+    with and without white space, a substitution variable containing `:`, an epoch version
+    with `=`. -/
+example :
+    let B := Bytes.ofString
+    let d : SDep :=
+      [[⟨false, B "libc6", some (B "amd64"), some (opGE, B "2.17~"), true, [B "i386", B "hurd-any"],
+          [[(false, B "stage1"), (true, B "nocheck")], [(false, B "cross")]]⟩,
+        ⟨false, B "foo", none, none, false, [], []⟩],
+       [⟨true, B "shlibs:Depends", none, none, false, [], []⟩],
+       [⟨false, B "bar", none, some (opEQ, B "1:2-3"), false, [], []⟩]]
+    let cs : Spec.Deb822.Choices :=
+      [1, 1, 0, 1, 0, 1, 0, 3, 1, 0, 2, 4, 5, 0, 1, 6, 0, 2, 1, 0, 1, 0, 0, 0, 0, 1, 1, 2]
+    wfDep d = true ∧
+    Spec.Dependency.render d cs =
+      B (" libc6:amd64 [!i386\n !hurd-any ] <\tstage1  !nocheck\r\n\t>( >=\n2.17~)\t< cross> |foo," ++
+         "${shlibs:Depends} , bar(=1:2-3)") ∧
+    denote d =
+      [[⟨B "libc6", some ⟨sGnu, sLinux, B "amd64"⟩,
+          some ⟨true, [⟨sGnu, sLinux, B "i386"⟩, ⟨sAny, B "hurd", sAny⟩]⟩,
+          [[⟨false, B "stage1"⟩, ⟨true, B "nocheck"⟩], [⟨false, B "cross"⟩]],
+          some ⟨B "2.17~", opGE⟩, false⟩,
+        ⟨B "foo", none, some ⟨false, []⟩, [], none, false⟩],
+       [⟨B "shlibs:Depends", none, none, [], none, true⟩],
+       [⟨B "bar", none, some ⟨false, []⟩, [], some ⟨B "1:2-3", opEQ⟩, false⟩]] := by
+  decide +kernel
+
+/-- The empty field is well-formed; its renderings are white space only. -/
+example : wfDep [] = true ∧ Spec.Dependency.render [] [3, 5] = [10, 32, 13, 10, 9] ∧ denote [] = [] := by
+  decide +kernel
+
+/-! #### the stages of the proof, as usable corollaries -/
+
+/-- no clauses at all: names, qualifiers, substitution variables, `|` and `,` -/
+def simpleDep (d : SDep) : Bool :=
+  d.all (·.all (fun p => p.version.isNone && p.archs.isEmpty && p.stages.isEmpty))
+
+/-- (1) dependencies whose alternatives have no clauses, with arbitrary spacing -/
+theorem C04_parse_render_simple (d : SDep) (cs : Spec.Deb822.Choices) (h : wfDep d = true)
+    (_ : simpleDep d = true) : Dep.parse (Spec.Dependency.render d cs) = .ok (denote d) :=
+  C04_parse_render d cs h
+
+example :
+    let B := Bytes.ofString
+    let d : SDep := [[⟨false, B "a", none, none, false, [], []⟩, ⟨true, B "x:y", none, none, false, [], []⟩],
+      [⟨false, B "b", some (B "any"), none, false, [], []⟩]]
+    wfDep d = true ∧ simpleDep d = true ∧
+    Spec.Dependency.render d [2, 1, 3, 0, 5, 1, 4] = B "\ta\n |${x:y}\r\n\t, b:any" := by
+  decide +kernel
+
+/-- (2) plus version clauses -/
+theorem C04_parse_render_version (d : SDep) (cs : Spec.Deb822.Choices) (h : wfDep d = true)
+    (_ : d.all (·.all (fun p => p.archs.isEmpty && p.stages.isEmpty)) = true) :
+    Dep.parse (Spec.Dependency.render d cs) = .ok (denote d) :=
+  C04_parse_render d cs h
+
+example :
+    let B := Bytes.ofString
+    let d : SDep := [[⟨false, B "a", some (B "i386"), some (opLT, B "1.0-1"), false, [], []⟩]]
+    wfDep d = true ∧ d.all (·.all (fun p => p.archs.isEmpty && p.stages.isEmpty)) = true ∧
+    Spec.Dependency.render d [0, 0, 1, 2, 1, 3] = B "a:i386 (\t<< 1.0-1\n )" := by
+  decide +kernel
+
+/-- (3) plus architecture lists -/
+theorem C04_parse_render_archs (d : SDep) (cs : Spec.Deb822.Choices) (h : wfDep d = true)
+    (_ : d.all (·.all (fun p => p.stages.isEmpty)) = true) :
+    Dep.parse (Spec.Dependency.render d cs) = .ok (denote d) :=
+  C04_parse_render d cs h
+
+example :
+    let B := Bytes.ofString
+    let d : SDep := [[⟨false, B "a", none, some (opLE, B "2"), false, [B "linux-any", B "amd64"], []⟩]]
+    wfDep d = true ∧ d.all (·.all (fun p => p.stages.isEmpty)) = true ∧
+    Spec.Dependency.render d [0, 1, 2, 0, 1, 0, 0, 0, 0, 0] = B "a\t[linux-any amd64](<=2)" := by
+  decide +kernel
+
+/-! ### rejection -/
+
+/-- Malformed fields are rejected with an error (and, the result being an `Except`, with
+    no result): an unterminated `(` — whatever follows it, as long as no `)` does. -/
+theorem C04_reject_unterminated_paren (pre body : Bytes) (hpre : token reserved pre = true)
+    (h : 41 ∉ body) : ∃ e, Dep.parse (pre ++ [32, 40] ++ body) = .error e :=
+  Lemmas.DepGrammarReject.reject_unterminated_paren pre body hpre h
+
+example :
+    token reserved (Bytes.ofString "foo") = true ∧ 41 ∉ Bytes.ofString ">= 1.0" ∧
+    Dep.parse (Bytes.ofString "foo (>= 1.0") = .error .err := by
+  decide +kernel
+
+/-- an unterminated `[` -/
+theorem C04_reject_unterminated_bracket (pre body : Bytes) (hpre : token reserved pre = true)
+    (h : 93 ∉ body) : ∃ e, Dep.parse (pre ++ [32, 91] ++ body) = .error e :=
+  Lemmas.DepGrammarReject.reject_unterminated_bracket pre body hpre h
+
+example :
+    token reserved (Bytes.ofString "foo") = true ∧ 93 ∉ Bytes.ofString "amd64 i386, bar" ∧
+    Dep.parse (Bytes.ofString "foo [amd64 i386, bar") = .error .err := by
+  decide +kernel
+
+/-- an unterminated `<` -/
+theorem C04_reject_unterminated_angle (pre body : Bytes) (hpre : token reserved pre = true)
+    (h : 62 ∉ body) : ∃ e, Dep.parse (pre ++ [32, 60] ++ body) = .error e :=
+  Lemmas.DepGrammarReject.reject_unterminated_angle pre body hpre h
+
+example :
+    token reserved (Bytes.ofString "foo") = true ∧ 62 ∉ Bytes.ofString "!stage1 | bar" ∧
+    Dep.parse (Bytes.ofString "foo <!stage1 | bar") = .error .err := by
+  decide +kernel
+
+/-- an unterminated `${` -/
+theorem C04_reject_unterminated_substvar (body : Bytes) (h : 125 ∉ body) :
+    ∃ e, Dep.parse ([36, 123] ++ body) = .error e :=
+  Lemmas.DepGrammarReject.reject_unterminated_substvar body h
+
+example :
+    125 ∉ Bytes.ofString "misc:Depends, foo" ∧
+    Dep.parse (Bytes.ofString "${misc:Depends, foo") = .error .err := by
+  decide +kernel
+
+/-- mixed negation inside one architecture list, in either order: `n [!a b]`, `n [a !b]` -/
+theorem C04_reject_mixed_negation (n a b : Bytes) (hn : token reserved n = true)
+    (ha : token reserved a = true) (hb : token reserved b = true) :
+    (∃ e, Dep.parse (n ++ [32, 91, 33] ++ a ++ [32] ++ b ++ [93]) = .error e) ∧
+    (∃ e, Dep.parse (n ++ [32, 91] ++ a ++ [32, 33] ++ b ++ [93]) = .error e) :=
+  Lemmas.DepGrammarReject.reject_mixed_negation n a b hn ha hb
+
+example :
+    token reserved (Bytes.ofString "foo") = true ∧ token reserved (Bytes.ofString "amd64") = true ∧
+    token reserved (Bytes.ofString "i386") = true ∧
+    Dep.parse (Bytes.ofString "foo [!amd64 i386]") = .error .err ∧
+    Dep.parse (Bytes.ofString "foo [amd64 !i386]") = .error .err := by
+  decide +kernel
+
+/-- a second version clause: `n (>= v) (<= w)` (the error arises at the second `(`, so
+    nothing is assumed about `w`) -/
+theorem C04_reject_second_version (n v w : Bytes) (hn : token reserved n = true)
+    (hv : token [41] v = true) :
+    ∃ e, Dep.parse (n ++ [32, 40, 62, 61, 32] ++ v ++ [41, 32, 40, 60, 61, 32] ++ w ++ [41])
+      = .error e :=
+  Lemmas.DepGrammarReject.reject_second_version n v w hn hv
+
+example :
+    token reserved (Bytes.ofString "foo") = true ∧ token [41] (Bytes.ofString "1.0") = true ∧
+    Bytes.ofString "foo" ++ [32, 40, 62, 61, 32] ++ Bytes.ofString "1.0" ++ [41, 32, 40, 60, 61, 32] ++
+      Bytes.ofString "2.0" ++ [41] = Bytes.ofString "foo (>= 1.0) (<= 2.0)" ∧
+    Dep.parse (Bytes.ofString "foo (>= 1.0) (<= 2.0)") = .error .err := by
+  decide +kernel
+
+/-- a second architecture clause: `n [a] [b]` (the error arises at the second `[`, so
+    nothing is assumed about `b`) -/
+theorem C04_reject_second_arch (n a b : Bytes) (hn : token reserved n = true)
+    (ha : token reserved a = true) :
+    ∃ e, Dep.parse (n ++ [32, 91] ++ a ++ [93, 32, 91] ++ b ++ [93]) = .error e :=
+  Lemmas.DepGrammarReject.reject_second_arch n a b hn ha
+
+example :
+    token reserved (Bytes.ofString "foo") = true ∧ token reserved (Bytes.ofString "amd64") = true ∧
+    Bytes.ofString "foo" ++ [32, 91] ++ Bytes.ofString "amd64" ++ [93, 32, 91] ++
+      Bytes.ofString "i386" ++ [93] = Bytes.ofString "foo [amd64] [i386]" ∧
+    Dep.parse (Bytes.ofString "foo [amd64] [i386]") = .error .err := by
+  decide +kernel
+
+/-- an unknown operator: `n (c1 c2 …` where `c1 c2` is none of `=`, `>=`, `<=`, `>>`, `<<`
+    (`c1` not white space; the error arises at the operator, so nothing is assumed about
+    what follows it) -/
+theorem C04_reject_unknown_operator (n : Bytes) (c1 c2 : Nat) (rest : Bytes)
+    (hn : token reserved n = true) (hws : isWs c1 = false)
+    (hop : c1 ≠ 61 ∧ ¬ ((c1 = 62 ∨ c1 = 60) ∧ (c2 = 61 ∨ c2 = c1))) :
+    ∃ e, Dep.parse (n ++ [32, 40] ++ [c1, c2] ++ rest) = .error e :=
+  Lemmas.DepGrammarReject.reject_unknown_operator n c1 c2 rest hn hws hop
+
+/-- `foo (~> 1.0)`, `foo (> 1.0)` (the old single-character form), `foo (<> 1.0)`. -/
+example :
+    token reserved (Bytes.ofString "foo") = true ∧
+    isWs 126 = false ∧ (126 ≠ 61 ∧ ¬ ((126 = 62 ∨ 126 = 60) ∧ (62 = 61 ∨ 62 = 126))) ∧
+    isWs 62 = false ∧ (62 ≠ 61 ∧ ¬ ((62 = 62 ∨ 62 = 60) ∧ (32 = 61 ∨ 32 = 62))) ∧
+    isWs 60 = false ∧ (60 ≠ 61 ∧ ¬ ((60 = 62 ∨ 60 = 60) ∧ (62 = 61 ∨ 62 = 60))) ∧
+    Dep.parse (Bytes.ofString "foo (~> 1.0)") = .error .err ∧
+    Dep.parse (Bytes.ofString "foo (> 1.0)") = .error .err ∧
+    Dep.parse (Bytes.ofString "foo (<> 1.0)") = .error .err := by
+  decide +kernel
+
+/-- two names without a separator: `a b` -/
+theorem C04_reject_two_names (a b : Bytes) (ha : token reserved a = true)
+    (hb : token reserved b = true) : ∃ e, Dep.parse (a ++ [32] ++ b) = .error e :=
+  Lemmas.DepGrammarReject.reject_two_names a b ha hb
+
+example :
+    token reserved (Bytes.ofString "foo") = true ∧ token reserved (Bytes.ofString "bar") = true ∧
+    Dep.parse (Bytes.ofString "foo bar") = .error .err := by
+  decide +kernel
+
 end GoDebian.Props.C04
